@@ -43,6 +43,7 @@ type sealRec struct {
 
 type cryptoState struct {
 	genPubs [][]Value
+	rands   [][]Value
 	honest []*SymStr // public keys whose private key the adversary does not hold
 	sha   []shaApp
 	sigs  []sigRec
@@ -189,8 +190,9 @@ func init() {
 		// deterministic: the same key and message give the same signature
 		sig := r.freshBytes("ed25519.sig", 64)
 		for _, s := range cs.sigs {
+			// the same (key, message) gives the same signature; different ones give different signatures
 			same := tAnd(boolTerm(eqStr(priv, s.priv)), boolTerm(eqStr(msg, s.msg)))
-			r.assertTerm(tImplies(same, eqCells(sig, s.sig.b)))
+			r.assertTerm(tIff(same, eqCells(sig, s.sig.b)))
 		}
 		ss := &SymStr{b: sig, n: int64(64)}
 		// earlier Verify applications on exactly this triple were true
@@ -423,6 +425,15 @@ func init() {
 		fresh := r.freshBytes("rand", int(n))
 		for i := int64(0); i < n; i++ {
 			s.a[i] = fresh[i]
+		}
+		if n >= 16 { // long random strings do not repeat
+			cs := r.crypto()
+			for _, prev := range cs.rands {
+				if len(prev) == len(fresh) {
+					r.assertTerm(tNot(eqCells(fresh, prev)))
+				}
+			}
+			cs.rands = append(cs.rands, fresh)
 		}
 		return Tuple{n, Iface{}}, actDone
 	})
